@@ -300,3 +300,81 @@ def case_context(lines, ln, start_pred, max_lines=400):
     while s > 0 and not start_pred(lines[s]):
         s -= 1
     return dict(first_line=s + 1, failing_line=ln, events=[json.loads(x) for x in lines[s:i + 1][-max_lines:]])
+
+
+# ---------------------------------------------------------------------------
+# Scheduler-driven scenario families (vh core) judged by TallyObsTrace
+
+from concurrent.futures import ThreadPoolExecutor
+
+
+def run_core_family(res, work, family, tier, seed, parts=8, timeout=1800, clauses=None, matcher=None, race=False, extra_args=()):
+    """Run `vh core -family <family>` split into `parts` processes, validate every part's observable
+    trace with TLC against TallyObsTrace, and judge the FAIL lines.  clauses: the invariant names that
+    belong to the property being checked (others are reported as cross-property observations)."""
+    build_harness(race)
+
+    def one(i):
+        d = os.path.join(work, "%s-p%d" % (family, i))
+        os.makedirs(d, exist_ok=True)
+        stage_specs(d)
+        run_vh(["core", "-family", family, "-part", "%d/%d" % (i, parts), "-out", d, "-seed", seed + i * 1000003, "-tier", tier] + list(extra_args), race=race, timeout=timeout)
+        meta = read_meta(d)
+        if meta["execs"] == 0:
+            return d, meta, [], None
+        fails, r = tlc_trace(d, "TallyObsTrace.tla", "TallyObsTrace.cfg", os.path.join(d, "trace.ndjson"), meta["events"], timeout=timeout)
+        if r["violated"] or not r["consumed"]:
+            raise Infra("TallyObsTrace did not consume trace of part %d: %s\n%s" % (i, r["violated"], r["out"][-3000:]))
+        return d, meta, fails, r
+
+    with ThreadPoolExecutor(max_workers=min(parts, max(2, NCPU // 2))) as ex:
+        results = list(ex.map(one, range(parts)))
+    other = {}
+    for d, meta, fails, r in results:
+        res.evaluations += meta["execs"]
+        res.distinct += meta["distinct"]
+        res.extra.setdefault("scenarios", []).extend(meta["scenarios"])
+        res.extra["steps"] = res.extra.get("steps", 0) + meta["steps"]
+        if meta.get("stuck"):
+            raise Infra("scheduler: %d executions got stuck (%s)" % (meta["stuck"], meta.get("stuck_msg")))
+        if meta.get("overruns"):
+            raise Infra("scheduler: %d executions exceeded the step bound" % meta["overruns"])
+        if r is None:
+            continue
+        res.add_trace_run("TallyObsTrace %s part" % family, r, meta["execs"], meta["events"])
+        res.states += r["distinct"]
+        res.transitions += r["generated"]
+        if len(res.samples) < 6:
+            res.samples.extend(meta.get("samples", [])[:2])
+        if not fails:
+            continue
+        lines = read_lines(os.path.join(d, "trace.ndjson"))
+        scheds = None
+        for (ln, clause, extra) in fails:
+            if clauses is not None and clause not in clauses:
+                other[clause] = other.get(clause, 0) + 1
+                continue
+            ctx = case_context(lines, ln, lambda s: s.startswith('{"e":"scn"'))
+            x = ctx["events"][0].get("x")
+            if scheds is None:
+                scheds = {}
+                for sl in read_lines(os.path.join(d, "scheds.ndjson")):
+                    o = json.loads(sl)
+                    scheds[o["x"]] = o
+            ctx["execution"] = scheds.get(x)
+            ctx["family"] = family
+            hit = None
+            if matcher:
+                for k in load_known().get("findings", []):
+                    if k.get("property") == res.pid and matcher(k, clause, ctx):
+                        hit = k
+                        break
+            if hit:
+                res.known_hits.append((hit, "clause %s" % clause))
+            elif len(res.violations) < 5:
+                res.violation(clause, "scenario %s execution %s trace line %d" % ((ctx["execution"] or {}).get("scenario"), x, ln), ctx)
+            else:
+                res.violations.append(dict(clause=clause, detail="", replay=res.violations[0]["replay"]))
+    if other:
+        res.extra["other_property_observations"] = other
+    return results
